@@ -28,6 +28,7 @@ import (
 	"pgregory.net/rapid"
 
 	"verifharness/lib/known"
+	"verifharness/lib/simkv"
 	"verifharness/lib/stats"
 )
 
@@ -137,11 +138,12 @@ func (c *Case) canonical() string {
 // ---------------------------------------------------------------- generator
 
 type genHistory struct {
-	Streams [3][]Op
-	Seg     [3][3]int // Seg[round][stream] = ops of that stream in that round
-	R1Frac  int       // round 1 kill after this percentage of its writes
-	R1Us    int
-	Rnd     []uint32 // pre-drawn randomness for the enumerated plans
+	Streams  [3][]Op
+	Seg      [3][3]int // Seg[round][stream] = ops of that stream in that round
+	R1Frac   int       // round 1 kill after this percentage of its writes
+	R1Us     int
+	Rnd      []uint32 // pre-drawn randomness for the enumerated plans
+	OptFsync bool     // namespace option optimized_fsync for this history
 }
 
 func genOp(rt *rapid.T, id string, seq int) Op {
@@ -150,7 +152,7 @@ func genOp(rt *rapid.T, id string, seq int) Op {
 	}
 	val := fmt.Sprintf("%s%d", id, seq)
 	kinds := []string{"set", "set", "set", "incr", "incr", "incrby", "append", "del", "del", "hset", "hset", "hmset", "hdel",
-		"lpush", "lpush", "rpush", "lpop", "sadd", "sadd", "srem", "zadd", "zadd", "zrem"}
+		"lpush", "lpush", "rpush", "lpop", "sadd", "sadd", "srem", "zadd", "zadd", "zrem", "pfadd", "pfadd"}
 	switch k := rapid.SampledFrom(kinds).Draw(rt, "kind"); k {
 	case "set":
 		return Op{[]string{"set", key("k", 4), val}}
@@ -181,6 +183,13 @@ func genOp(rt *rapid.T, id string, seq int) Op {
 		return Op{[]string{k, key("l", 2), val}}
 	case "lpop":
 		return Op{[]string{"lpop", key("l", 2)}}
+	case "pfadd":
+		// elements come from the pool <stream><0..hllPool-1> that TestKnownHLLPoolExact checks to be counted exactly
+		el := val
+		if rapid.IntRange(0, 4).Draw(rt, "again") == 0 {
+			el = fmt.Sprintf("%s%d", id, rapid.IntRange(0, seq).Draw(rt, "old"))
+		}
+		return Op{[]string{"pfadd", key("p", 2), el}}
 	case "sadd", "srem":
 		return Op{[]string{k, key("s", 2), fmt.Sprintf("m%d", rapid.IntRange(0, 7).Draw(rt, "m"))}}
 	case "zadd":
@@ -201,6 +210,7 @@ func genHist(rt *rapid.T) genHistory {
 			h.Streams[s] = append(h.Streams[s], genOp(rt, streamIDs[s], i))
 		}
 	}
+	h.OptFsync = rapid.Bool().Draw(rt, "optimized_fsync")
 	h.R1Frac = rapid.IntRange(3, 97).Draw(rt, "r1frac")
 	h.R1Us = rapid.IntRange(0, 1500).Draw(rt, "r1us")
 	h.Rnd = rapid.SliceOfN(rapid.Uint32(), 512, 512).Draw(rt, "rnd")
@@ -901,6 +911,7 @@ func TestCrashEnumeration(t *testing.T) {
 	for caseNo, h := range hists {
 		h := h
 		cfg := defaultCfg(engine)
+		cfg.OptFsync = h.OptFsync
 		// learning run: rounds 1 and 2 without a named crash, to see which points the second incarnation reaches
 		learn := &Case{Cfg: cfg, Streams: h.Streams, Rounds: []Round{h.round1(), {Crash: CrashSpec{Kind: "none"}, Upto: h.upto(1)}}}
 		lo := runCase(learn, opt)
@@ -1111,4 +1122,27 @@ func TestKnownCheckpointCutAfterApplyResumed(t *testing.T) {
 		}
 		return false, ""
 	})
+}
+
+// The reference model counts HyperLogLog keys as exact sets. That is only right while the
+// elements do not collide in the implementation's sparse representation: every element the
+// generator can draw (<stream><0..209>) is added here one by one and must be counted exactly.
+func TestKnownHLLPoolExact(t *testing.T) {
+	sim, err := simkv.New(simkv.Options{Engine: "mem"})
+	if err != nil {
+		fmt.Printf("HARNESS: %v\n", err)
+		os.Exit(2)
+	}
+	defer sim.Close()
+	for _, id := range streamIDs {
+		key := nsPrefix + table + ":" + id + "p"
+		for i := 0; i < 210; i++ {
+			a := sim.Do("pfadd", key, fmt.Sprintf("%s%d", id, i)).One()
+			c := sim.Do("pfcount", key).One()
+			if a.Kind != 'i' || a.I != 1 || c.Kind != 'i' || c.I != int64(i+1) {
+				fmt.Printf("HARNESS: the HyperLogLog element pool is not counted exactly: after %d distinct elements of stream %s PFADD -> %s, PFCOUNT -> %s\n", i+1, id, a.String(), c.String())
+				os.Exit(2)
+			}
+		}
+	}
 }
